@@ -142,7 +142,14 @@ func (s *Service) handleSubmitSyncCommitteeMessagesError(ctx context.Context,
 			s.log.Warn().Err(err).Msg("Failed to submit sync committee messages")
 			return err
 		}
+		if len(resp.Failures) == 0 {
+			// An error without a list of failures is not a list of tolerated failures.
+			return err
+		}
 		for i := range len(resp.Failures) {
+			if resp.Failures[i] == nil {
+				continue
+			}
 			switch {
 			case strings.HasPrefix(resp.Failures[i].Message, "Verification: PriorSyncCommitteeMessageKnown"):
 				s.log.Trace().Str("provider", provider).Int("index", resp.Failures[i].Index).Msg("Message already received for that slot; ignoring")
@@ -161,7 +168,14 @@ func (s *Service) handleSubmitSyncCommitteeMessagesError(ctx context.Context,
 			s.log.Trace().Err(err).Msg("Failed to submit sync committee messages")
 			return err
 		}
+		if len(resp.Failures) == 0 {
+			// An error without a list of failures is not a list of tolerated failures.
+			return err
+		}
 		for i := range len(resp.Failures) {
+			if resp.Failures[i] == nil {
+				continue
+			}
 			switch {
 			case resp.Failures[i].Message == "Ignoring sync committee message as a duplicate was processed during validation":
 				s.log.Trace().Str("provider", provider).Str("index", resp.Failures[i].Index).Msg("Message already received for that slot; ignoring")
